@@ -1,7 +1,7 @@
 (* Dispatch table of the extracted model executable: one command per modelled function.
    Model modules are required, not imported: every reference below is qualified. *)
 From FV Require Import Base.Prelude.
-From FV Require Model.ScriptBlocks Model.MathFuncs gen.MathTable Cpp.IR Cpp.Exec Model.KindModel Model.Arith Model.LocalDataset Model.WordSubst.
+From FV Require Model.ScriptBlocks Model.MathFuncs gen.MathTable Cpp.IR Cpp.Exec Model.KindModel Model.Arith Model.LocalDataset Model.WordSubst Model.CppTypesModel.
 
 Definition dispatch (cmd : string) (arg : sexp) : sexp :=
   if String.eqb cmd "c15.gen" then ScriptBlocks.run_gen arg
@@ -20,4 +20,10 @@ Definition dispatch (cmd : string) (arg : sexp) : sexp :=
   else if String.eqb cmd "c11.call" then WordSubst.run_call arg
   else if String.eqb cmd "c11.finder" then WordSubst.run_finder arg
   else if String.eqb cmd "c17.execute" then LocalDataset.run_execute arg
+  else if String.eqb cmd "c12.audit" then MathFuncs.audit MathTable.math_env MathTable.documented
+  else if String.eqb cmd "c10.parse" then CppTypesModel.run_parse arg
+  else if String.eqb cmd "c10.access" then CppTypesModel.run_access arg
+  else if String.eqb cmd "c10.lookup" then CppTypesModel.run_lookup arg
+  else if String.eqb cmd "c10.enum" then CppTypesModel.run_enum arg
+  else if String.eqb cmd "c10.translate" then CppTypesModel.run_translate arg
   else s_tag "unknown-command" [SAtom cmd].
